@@ -98,9 +98,8 @@ pub fn group_digits(d: &str) -> String {
 pub fn judge_dictation(ls: &LangSet, code: &str, d: &str) -> (bool, Option<String>) {
     let api = ls.api(code);
     let text = spell::dictate(code, d);
-    if api.tokens(&text).iter().any(|t| t.nan) {
-        return (true, None);
-    }
+    // no skip here: in a sequence of digit words every neighbour of an ambiguous word is a number word, so the
+    // ambiguity rules never legitimately set a digit aside
     let out = api.replace(&text, 0.0);
     let expected = group_digits(d);
     if out != expected {
@@ -166,7 +165,13 @@ pub fn run(ctx: &Ctx) -> Outcome {
                     break;
                 }
                 let len = 5 + rng.usize(4);
-                let d: String = (0..len).map(|_| char::from(b'0' + if rng.chance(1, 3) { 0 } else { rng.below(10) as u8 })).collect();
+                // two digit distributions: zero-rich, and rich in the digits whose words are ambiguous in some language
+                // (fr un / neuf: the ambiguity pass carries a scratch state from one `neuf` to the next)
+                let d: String = if i % 2 == 0 {
+                    (0..len).map(|_| char::from(b'0' + if rng.chance(1, 3) { 0 } else { rng.below(10) as u8 })).collect()
+                } else {
+                    (0..len + 1).map(|_| char::from(b'0' + match rng.below(10) { 0..=2 => 1, 3..=5 => 9, _ => rng.below(10) as u8 })).collect()
+                };
                 let (skipped, fail) = judge_dictation(&ls, code, &d);
                 rep.eval(hash_bytes(&[code.as_bytes(), b"dict", d.as_bytes()]), !skipped);
                 if let Some(msg) = fail {
